@@ -144,7 +144,7 @@ def _has_either_edge(graph: NxMixedGraph, u: Variable, v: Variable) -> bool:
 
 
 def _only_directed_edge(graph: NxMixedGraph, u: Variable, v: Variable) -> bool:
-    return graph.directed.has_edge(u, v) and not graph.undirected.has_edge(u, v)
+    return cast(bool, graph.directed.has_edge(u, v))
 
 
 def is_collider(
